@@ -317,7 +317,9 @@ def main():
                                        'from rsatoolbox are validated by trace specifications (impl->spec)'}],
         'checks': checks,
         'not_applicable': na,
-        'notes': 'See DESIGN.md. known_findings.json lists recorded findings and fixed defects.',
+        'notes': 'See DESIGN.md. known_findings.json lists recorded findings and fixed defects. Beyond the listed properties the '
+                 'specification also covers the decision layer of rsatoolbox.vis (specs/PlotDecisions.tla, ./check X01, evidence '
+                 'in evidence_extra/; DESIGN.md section 5.1) - not a claimed check because it decides none of the listed properties.',
     }
     out = os.path.join(HERE, 'MANIFEST.json')
     json.dump(man, open(out, 'w'), indent=1)
